@@ -27,7 +27,7 @@ ASSUMPTIONS = [
     "depend on digits beyond double precision",
     "fail-fast rejection = any MetapypeRuleError; collecting rejection = non-empty list of well-formed entries",
 ]
-REQUIRED = ["coordinate_anchor_cases", "validations_on_long_lived_node", "childless_judged_right_after_same_content_with_children", "accept_agree", "reject_agree", "failfast_calls", "collecting_calls"]
+REQUIRED = ["single_children_standing_in_for_text", "same_node_same_list_validated_twice", "coordinate_anchor_cases", "validations_on_long_lived_node", "childless_judged_right_after_same_content_with_children", "accept_agree", "reject_agree", "failfast_calls", "collecting_calls"]
 EXHAUSTIVE = {"quick": False, "thorough": False}
 
 CONTENT_CODES_PREFIX = ("CONTENT_", "STR_CONTENT", "UNKNOWN_CONTENT_RULE")
@@ -102,7 +102,12 @@ def observe(rule_name, element, kids, content, reuse=False):
             emlkit.discard(twin)
             before = list(errs)
         try:
-            emlkit.validate_as(rule_name, n, errs)
+            if reuse:
+                # ... validated through one long-lived Rule object (what it validated before must not matter either)
+                r_ = emlkit.long_lived_rule(rule_name)
+                r_.validate_rule(n) if errs is None else r_.validate_rule(n, errs)
+            else:
+                emlkit.validate_as(rule_name, n, errs)
             if prefilled:
                 errs = errs[len(before):] if len(errs) >= len(before) and all(a is b for a, b in zip(errs, before)) else ["earlier-entries-disturbed"]
             if mode == "failfast" or not errs:
@@ -123,6 +128,33 @@ def observe(rule_name, element, kids, content, reuse=False):
             if not reuse:
                 emlkit.discard(n)
     return res
+
+
+def same_list_twice(ctx, rule_name, element, kids, first, second):
+    """One node validated into one error list, its content replaced, validated into the same list again: the second call appends what a
+    call into a fresh list would append."""
+    n = emlkit.make_node(rule_name, element, kids, content=first)
+    errs = []
+    try:
+        emlkit.validate_as(rule_name, n, errs)
+        k = len(errs)
+        n.content = second
+        emlkit.validate_as(rule_name, n, errs)
+        again = [e[0].name for e in errs[k:]]
+        fresh = []
+        m = emlkit.make_node(rule_name, element, kids, content=second)
+        emlkit.validate_as(rule_name, m, fresh)
+        emlkit.discard(m)
+        ctx.evaluated(3)
+        ctx.count("same_node_same_list_validated_twice")
+        if again != [e[0].name for e in fresh]:
+            ctx.violation("second-validation-into-the-same-list-differs", f"{rule_name}: content {first!r} then {second!r} validated into one list: the "
+                                                                          f"second call appended {again}, a fresh list gets {[e[0].name for e in fresh]}",
+                          {"rule": rule_name, "element": element, "children": kids, "content": second, "same_list_after": first})
+    except Exception:
+        pass
+    finally:
+        emlkit.discard(n)
 
 
 def judge(ctx, rule_name, element, kids, content, stats=None, after=None):
@@ -227,6 +259,13 @@ def run(ctx, params):
             ne = nonempty_child_sequence(rule_name)
             if ne:
                 variants.append(ne)
+            # every child the rule declares, alone, standing in for the text (markdown as much as para or section)
+            mm = emlkit.machine_of(rule_name)
+            for nm in emlkit.spec_of(rule_name).names:
+                if [nm] != ne and mm.verdict((nm,)) == relang.ACCEPT:
+                    for v in (None, "", " "):
+                        judge(ctx, rule_name, (list(emlkit.elements_of(rule_name)) or [emlkit.synthetic_name(rule_name)])[0], [nm], v)
+                        ctx.count("single_children_standing_in_for_text")
         first = sig not in seen_sig
         seen_sig[sig] = True
         n_random = params["n_random"] if first else params["light"]
@@ -260,6 +299,9 @@ def run(ctx, params):
                 judge(ctx, rule_name, elements[0], variants[1], v)
                 judge(ctx, rule_name, elements[0], variants[0], v, None, after=variants[1])
                 ctx.count("childless_judged_right_after_same_content_with_children")
+        vs = [v for v in values[:60]]
+        for a_, b_ in zip(vs, vs[1:]):
+            same_list_twice(ctx, rule_name, elements[0], variants[0], a_, b_)
         rc = ctx.cover.setdefault("rules", {})
         rc[rule_name] = rc.get(rule_name, 0) + n
 
@@ -286,6 +328,11 @@ def finish(merged):
 
 
 def replay(ctx, witness):
+    if "same_list_after" in witness:
+        same_list_twice(ctx, witness["rule"], witness["element"], witness["children"], witness["same_list_after"], witness["content"])
+        ctx.distinct(1)
+        ctx.distinct(2)
+        return
     if "coordinate_anchor" in witness:
         coordinate_anchors(ctx)
         ctx.distinct(1)
